@@ -267,12 +267,14 @@ def pyIntHex (s : List Nat) : Option (Bool × Nat) :=
   body.map fun v => (p.1, v)
 
 /-- `dns.rdtypes.util.parse_formatted_hex(text, 4, 4, ":")` (NID node id, L64 locator): 19 characters, four
-4-character chunks read with `int(chunk, 16)`, separated by `:` -/
+4-character chunks of hex digits read with `int(chunk, 16)`, separated by `:` -/
 def parseFormattedHex4 (t : List Nat) : Option Bytes :=
   if t.length ≠ 19 then none
   else
     let chunk (i : Nat) : Option Bytes :=
-      match pyIntHex ((t.drop (5 * i)).take 4) with
+      -- `fix:` commit 05bef5d: hexadecimal digits only (`int()` also took signs, `_`, `0x`, surrounding whitespace)
+      if !(((t.drop (5 * i)).take 4).all fun c => (hexDigitVal c).isSome) then none
+      else match pyIntHex ((t.drop (5 * i)).take 4) with
       | some (neg, v) => if neg ∧ v ≠ 0 then none else some [v / 256 % 256, v % 256]
       | none => none
     let sepOk (i : Nat) : Bool := (t.drop (5 * i + 4)).head? == some 58
